@@ -103,6 +103,91 @@ def _term(key, default, dom):
     return ("optdom", key, default, dom)
 
 
+def run_namespace_whole(nesting, res):
+    """validate / keys / explain of the namespace OBJECTS (innermost and top) against the union over the
+    equivalent fully-qualified Options."""
+    fails = []
+    ns, path, members = _build_ns(nesting)
+    obj = ns
+    for a in path.split(".")[1:]:
+        # attribute names are the class names (a renamed level keeps its class name as attribute)
+        obj = getattr(obj, a[:-2] if a.endswith("-n") else a)
+    full = {}
+    for name, (qkey, member, qualified) in members.items():
+        full[qkey] = 1
+    dicts = []
+    for drop in [None] + sorted(full):
+        for b in (None, 8):
+            for uf in (None, 2):
+                o = {}
+                for qkey, v in full.items():
+                    if qkey != drop:
+                        o = _ns_merge(o, _ns_dict(qkey, v, None))
+                if b is not None:
+                    o["B"] = b
+                if uf is not None:
+                    o["U"] = {"F": uf}
+                dicts.append(o)
+    for target_name, target in (("innermost", obj), ("top", ns)):
+        if target_name == "top" and obj is ns:
+            continue
+        for o in dicts:
+            res["evaluations"] += 1
+            qs = [q for _, (_, _, q) in members.items()]
+            want_keys, want_explain, want_valid = set(), set(), True
+            keys_ok = True
+            for q in qs:
+                k = observe(None, lambda: q.keys(copy.deepcopy(o)))
+                if k.ok:
+                    want_keys |= set(k.value)
+                else:
+                    keys_ok = False
+                e = observe(None, lambda: q.explain(copy.deepcopy(o)))
+                if e.ok:
+                    want_explain |= set(e.value)
+                if not observe(None, lambda: q.validate(copy.deepcopy(o))).ok:
+                    want_valid = False
+            import warnings
+
+            with warnings.catch_warnings():
+                warnings.simplefilter("ignore")
+                gk = observe(None, lambda: target.keys(copy.deepcopy(o)))
+                ge = observe(None, lambda: target.explain(copy.deepcopy(o)))
+                gv = observe(None, lambda: target.validate(copy.deepcopy(o)))
+
+            def bad(kind, d):
+                sig = f"C04|namespace-object|{kind}|{target_name}|{nesting}"
+                if not any(f["sig"] == sig for f in fails):
+                    fails.append({"sig": sig, "what": f"{kind}: {target_name} namespace object of nesting {nesting} under {o!r}", "detail": d, "case": ("nswhole", NS_NESTINGS.index(nesting))})
+
+            if gv.ok != want_valid:
+                bad("validate-differs-from-members", f"validate -> {gv!r}; members valid: {want_valid}")
+            if keys_ok != gk.ok:
+                bad("keys-succeeds-differently-from-members", f"keys -> {gk!r}; members' keys all succeed: {keys_ok}")
+            elif gk.ok and not (want_keys <= set(gk.value) and all(exists(o, k) for k in gk.value)):
+                bad("keys-not-the-union-of-members", f"keys -> {sorted(gk.value)}; union over members {sorted(want_keys)}")
+            if not ge.ok:
+                bad("explain-failed", repr(ge))
+            else:
+                absent = {k for k in ge.value if not exists(o, k)}
+                want_absent = {k for k in want_explain if not exists(o, k)}
+                if absent != want_absent or not want_keys <= set(ge.value) | (set() if keys_ok else want_keys):
+                    bad("explain-not-the-union-of-members", f"explain -> {sorted(ge.value)}; union over members {sorted(want_explain)}; keys {sorted(want_keys)}")
+            if want_explain - set(o):
+                res["nontrivial"] += 1
+    return fails
+
+
+def _ns_merge(a, b):
+    out = copy.deepcopy(a)
+    for k, v in b.items():
+        if isinstance(v, dict) and isinstance(out.get(k), dict):
+            out[k] = _ns_merge(out[k], v)
+        else:
+            out[k] = copy.deepcopy(v)
+    return out
+
+
 def cases(tier, seed):
     out = []
     kd = _key_dicts()
@@ -111,6 +196,7 @@ def cases(tier, seed):
             out.append(("lookup", key, di))
     for form in range(len(NS_NESTINGS)):
         out.append(("namespace", form))
+        out.append(("nswhole", form))
     out.append(("set",))
     return out
 
@@ -142,7 +228,19 @@ def _ns_members():
     M.append(("AUTOTMPL", ("attr", lambda: Option.auto("{B}-t", doc="templated default")), lambda q: Option(q, "{B}-t")))
     M.append(("AUTODOM", ("attr", lambda: Option.auto(1, domain=[1, 2])), lambda q: Option(q, 1, domain=[1, 2])))
     M.append(("EVAL", ("attr", lambda: Option("B", 4) >> f), lambda q: Option(q, Option("B", 4) >> f)))
+    # an automatic member piped through a step whose parameter is read from another option
+    M.append(("AUTOSTEP", ("attr", lambda: Option.auto(3) >> _scale()), lambda q: Option(q, 3) >> _scale()))
     return M
+
+
+def _scale():
+    from labrea import Option, pipeline_step
+
+    @pipeline_step
+    def scale(x, factor=Option("U.F")):
+        return ("scaled", x, factor)
+
+    return scale
 
 
 def _nestings(max_levels=3):
@@ -377,6 +475,8 @@ def run_case(case):
     elif kind == "namespace":
         res["failures"] = run_namespace(NS_NESTINGS[case[1]], res)
         res["samples"].append({"space": "namespace", "nesting": NS_NESTINGS[case[1]], "members": [m[0] for m in _ns_members()], "values": NS_VALUES})
+    elif kind == "nswhole":
+        res["failures"] = run_namespace_whole(NS_NESTINGS[case[1]], res)
     elif kind == "namespace1":
         fl = run_namespace(case[1], res)
         res["failures"] = [f for f in fl if f["case"] == tuple(case) or list(f["case"]) == list(case)]
